@@ -7,6 +7,9 @@ Deductive:
                           log (no sleep with work pending) and the or-event was registered before; afterwards the
                           session is brought up to the highest mod-sequence
   _AsyncioEvent.set       sets its own event and every registered listener (the or-events of idlers)
+  ConnectionState.do_command   every dispatched command (IDLE included) starts with `hide_expunged` off, whatever the
+                          previous command left behind (a refused non-UID command never reaches the fork that would reset it):
+                          otherwise the first EXPUNGE during IDLE would be deferred instead of pushed
   structural              every change-log entry of dict MailboxData is followed by self._updated.set() in the same block
                           (same atomic segment), unconditionally
 Bounded (real server): bursts of APPEND/STORE/EXPUNGE against 1-2 idlers, read-write or read-only, the changing session
@@ -14,12 +17,12 @@ with or without the mailbox selected, the idler's transport blocked (drain held)
 DONE racing with a change in both orders at 0..11 loop turns distance, DONE while blocked; endings DONE / other lines.
 """
 from pyvc.prop import Property, Bounded, Structural
-from . import idle as I
+from . import idle as I, state as ST
 from harness.e2e_idle import bounded_idle
 
 PROPERTY = Property(
     'C16', 'IDLE delivers every change without further stimulus',
-    contracts=I.CONTRACTS, registry=I.REG,
+    contracts=I.CONTRACTS + [ST.do_command_sel], registry=dict(list(ST.REG.items()) + list(I.REG.items())),
     structural=[Structural('mutators_signal', I.mutators_signal)],
     bounded=[Bounded('IDLE bursts with blocked transport and DONE races (real server, dict backend)',
                      'changes {append, two appends back to back, expunge of the lowest / of a middle message, flag change}: all '
